@@ -5,6 +5,7 @@
 -/
 import LeraxModel.Proto
 import LeraxModel.OnPolicy
+import LeraxModel.Utils
 import Driver.Tabular
 namespace Lerax.Driver
 open Lerax.Proto Lerax.Env Lerax.OnPolicy
@@ -88,6 +89,21 @@ def onPolicyRolloutOp (a : V) : R V := do
             ("final_policy_state", V.n fin.policy),
             ("last_value", .f (pol.valueAt fin.policy lastObs))])
 
-def onPolicyOps : List (String × (V → R V)) := [("onpolicy_rollout", onPolicyRolloutOp)]
+/-- op `filter_cond`: leaves are floats (array leaves) or strings (static leaves) -/
+def parseLeaves (v : V) : R (List (Lerax.Utils.Leaf Float String)) := do
+  (← v.asL).mapM (fun l => match l with
+    | .s x => pure (Lerax.Utils.Leaf.static x)
+    | x => do pure (Lerax.Utils.Leaf.arr (← x.asF)))
+
+def filterCondOp (a : V) : R V := do
+  let pred ← (← a.get "pred").asB
+  let t ← parseLeaves (← a.get "true")
+  let f ← parseLeaves (← a.get "false")
+  match Lerax.Utils.filterCond pred t f with
+  | .error _ => pure (.s "ValueError")
+  | .ok r => pure (.l (r.map (fun l => match l with | .arr x => V.f x | .static s => V.s s)))
+
+def onPolicyOps : List (String × (V → R V)) :=
+  [("onpolicy_rollout", onPolicyRolloutOp), ("filter_cond", filterCondOp)]
 
 end Lerax.Driver
